@@ -267,6 +267,8 @@ class P(Prop):
         (M, "TV.C08.units_sound", "points at most d apart on each axis fall in cells whose column/row indices differ by at most groundDistanceToUnits(d) = floor(d/min(dX,dY)+1)"),
         (M, "TV.C08.neighboringCells_square", "__neighboringcells(i,j,u) is exactly the Chebyshev square of radius u around (i,j) clipped to the grid"),
         (M, "TV.C08.neighborhood_complete", "neighborhood(q, unit=groundDistanceToUnits(d)), q inside the extent, d >= 0, does not raise and returns every feature with a point within Euclidean distance d of q"),
+        (M, "TV.C08.vertex_on_upper_border_raises", "formal side of finding D10: if the constructor returns, no point of a feature segment has x = xmax or y = ymax (so with margin 0 a right-/top-most vertex of a 2+-point track makes it raise)"),
+        (M, "TV.C08.point_query_on_upper_border_raises", "formal side of finding query-on-upper-border: request(q) with q.x = xmax or q.y = ymax raises IndexError on every built index"),
         (M, "TV.C08.isFloor_ratFloor", "Rat.floor, the driver's math.floor, satisfies the floor contract assumed by the theorems"),
     ]
     partial = []
